@@ -152,6 +152,7 @@ type run struct {
 	cfg                 string
 	lose                int // POSTs of target lists still to lose
 	seedBase, cycleSeed int64
+	probesAtStart       int
 	stuck               []string
 }
 
@@ -220,6 +221,7 @@ func (r *run) advance() {
 // afterwards belong to the sidecars (scrapes of the simulated targets).
 func (r *run) startCoordinator() {
 	r.copt.Targets = r.pn
+	r.probesAtStart = r.pn.Count()
 	r.co = sidecarsim.StartCoordinator(r.copt)
 	synctest.Wait()
 	sidecarsim.SetClientTransport(r.tg)
@@ -422,6 +424,10 @@ func runBubble(tp *core.Tape, e *core.Env, sc *scen) {
 			}
 			if now.Sub(quietStart) > 80*10*time.Second {
 				sort.Strings(r.stuck)
+				if e.Property == "C17" {
+					r.checkAPI() // C17 is about what is discovered and tracked, not about placement
+					return
+				}
 				e.Violate("cmd-not-converged", stuckClass(r.stuck), "real commands (coordinator + %d sidecars, static shards): 80 fault-free cycles after the last change the end state is not reached: %v", sc.Shards, r.stuck)
 				return
 			}
@@ -646,6 +652,20 @@ func (r *run) checkAPI() {
 	}
 	sort.Strings(got)
 	sort.Strings(want)
+	if r.e.Property != "C17" {
+		return
+	}
+	// the explorer follows too: every discovered target has been probed by this coordinator process
+	probed := map[string]bool{}
+	for _, p := range r.pn.Started[r.probesAtStart:] {
+		probed[p.Host] = true
+	}
+	for _, t := range r.sc.Targets {
+		if t.InSD && !probed[t.Addr] {
+			r.e.Violate("cmd-explorer-never-probed", "", "%s has been in discovery through %d quiet cycles but the explorer of the running coordinator never probed it", t.Addr, 4)
+			return
+		}
+	}
 	if strings.Join(got, ",") != strings.Join(want, ",") {
 		r.e.Violate("cmd-api-targets", "differ", "the coordinator's API lists active targets %v, discovery and the loaded configuration say %v", got, want)
 	}
